@@ -229,10 +229,7 @@ theorem addEdge_result_live (k : Kernel) (a b : Nat) (d : Bool) (h : WF k) (ha :
     · cases he
     · split at he
       · rename_i hv
-        unfold findEdgeBU at he
-        rw [Option.map_eq_some_iff] at he
-        obtain ⟨x, hx, rfl⟩ := he
-        have hm := List.mem_of_find?_eq_some hx
+        obtain ⟨x, hm, _, rfl⟩ := findEdgeBU_some he
         have := (mem_sOut (((h.cache.v hv).2 a ha).mem_iff.mp hm)).2
         unfold liveE at this; simp at this; exact this.2
       · unfold findEdgeScan at he
